@@ -27,3 +27,26 @@ def cases(tier, cont):
                             unwind=n0 + 7, checks='func', timeout=300, funcs=FUNCS[cont],
                             desc='%s history %s; %s; %s from %d API-appended symbolic elements: indexes (whole int range) and values symbolic; every result and the contents after every call compared with the ideal sequence' % (name, a, b, c, n0)))
     return out
+
+
+MOPS = {'PUT': 1, 'GET': 2, 'REMOVE': 3, 'SIZE': 4, 'CLEAR': 5}
+MF = {3: ['qlisttbl', 'qlisttbl_put', 'qlisttbl_putstr', 'qlisttbl_getstr', 'qlisttbl_remove', 'qlisttbl_getnext', 'qlisttbl_removeobj', 'qlisttbl_clear', 'qlisttbl_size'],
+      4: ['qhashtbl', 'qhashtbl_put', 'qhashtbl_putstr', 'qhashtbl_get', 'qhashtbl_getstr', 'qhashtbl_remove', 'qhashtbl_clear', 'qhashtbl_size'],
+      5: ['qtreetbl', 'qtreetbl_putobj', 'qtreetbl_getobj', 'qtreetbl_removeobj', 'qtreetbl_clear', 'put_obj', 'remove_obj', 'find_obj']}
+
+
+def map_cases(tier, cont):
+    """cont: 3 list table UNIQUE (C08), 4 hash table range 2 (C05); keys a, c, e collide in one hash-table slot, b is alone"""
+    name = {3: 'listtbl', 4: 'hashtbl', 5: 'tree'}[cont]
+    pid = {3: 'c08', 4: 'c05', 5: 'c01'}[cont]
+    n0s = [3] if tier == 'quick' else [2, 4]
+    out = []
+    for n0 in n0s:
+        for (a, b, c) in itertools.product(sorted(MOPS), repeat=3):
+            if len({a, b, c} & {'PUT', 'REMOVE', 'CLEAR'}) == 0:
+                if not (cont == 4 and 'GET' in (a, b, c)):
+                    continue   # observers only (a hash-table get may reorder a chain, so those triples stay)
+            out.append(Case('%s.hist.%s.%s-%s-%s.n%d' % (pid, name, a, b, c, n0), 'schedmap.c', {'VF_CONT': cont, 'VF_SEQ3': None, 'VF_OP1': MOPS[a], 'VF_OP2': MOPS[b], 'VF_OP3': MOPS[c], 'VF_N0': n0},
+                            unwind=10, unwindset={'put_obj': 5, 'remove_obj': 5, 'remove_min': 5, 'free_objs': 5}, checks='func', timeout=300, funcs=MF[cont], object_bits=10,
+                            desc='%s history %s; %s; %s from %d API-inserted keys out of {a,c,e,b}: keys and values symbolic; every result and the final contents compared with the ideal map' % (name, a, b, c, n0)))
+    return out
